@@ -231,8 +231,8 @@ func (v *VDR) Create(did *docdid.Doc,
 		return nil, err
 	}
 
-	for k := range pks {
-		createOpt = append(createOpt, create.WithPublicKey(pks[k].publicKey))
+	for _, k := range pks {
+		createOpt = append(createOpt, create.WithPublicKey(k.publicKey))
 	}
 
 	createOpt = append(createOpt,
@@ -296,8 +296,12 @@ type pk struct {
 	publicKey *doc.PublicKey
 }
 
-func getSidetreePublicKeys(didDoc *docdid.Doc) (map[string]*pk, error) { //nolint:funlen,gocyclo
+// getSidetreePublicKeys returns the keys in the order in which they first appear in the document's
+// verification relationships, so that the same document always yields the same create request.
+func getSidetreePublicKeys(didDoc *docdid.Doc) ([]*pk, error) { //nolint:funlen,gocyclo
 	pksMap := make(map[string]*pk)
+
+	var pks []*pk
 
 	ver := make([]docdid.Verification, 0)
 
@@ -350,6 +354,7 @@ func getSidetreePublicKeys(didDoc *docdid.Doc) (map[string]*pk, error) { //nolin
 				},
 				value: v.VerificationMethod.Value,
 			}
+			pks = append(pks, pksMap[id])
 		case v.VerificationMethod.Value != nil:
 			pksMap[id] = &pk{
 				publicKey: &doc.PublicKey{
@@ -360,12 +365,13 @@ func getSidetreePublicKeys(didDoc *docdid.Doc) (map[string]*pk, error) { //nolin
 				},
 				value: v.VerificationMethod.Value,
 			}
+			pks = append(pks, pksMap[id])
 		default:
 			return nil, fmt.Errorf("verificationMethod needs either JSONWebKey or Base58 key")
 		}
 	}
 
-	return pksMap, nil
+	return pks, nil
 }
 
 // Option configures the long-form vdr.
